@@ -1331,9 +1331,12 @@ class Compiler:
             i18n=i18n
         )
 
-        self._enter_assignment((node.name, ))
-        fallback_body = self.visit(node.fallback)
-        self._leave_assignment((node.name, ))
+        # The error variable ends with the fallback: a variable of that
+        # name is visible again afterwards (or the name is undefined).
+        names = (node.name, )
+        error_backup = list(self._enter_assignment(names))
+        fallback_body = self.visit(node.fallback) + \
+            list(self._leave_assignment(names))
 
         # The token is unset if the failure comes out of an inline macro
         # (which reports its own position); the location is then unknown.
@@ -1352,6 +1355,7 @@ class Compiler:
                 type=ast.Tuple(elts=[Builtin("Exception")], ctx=ast.Load()),
                 name="__exc",
                 body=(scope_restore +
+                      error_backup +
                       error_assignment +
                       # The failure is handled: forget the positions
                       # recorded for it on the way up.
